@@ -177,4 +177,49 @@ theorem massFlow_mono (rho : Rat) (hrho : 0 ≤ rho) (a b : Rat) (hab : a ≤ b)
   have : a / 1000 ≤ b / 1000 := by linarith
   exact mul_le_mul_of_nonneg_right this hrho
 
+/-! ### `set_design` call histories -/
+
+theorem stepCall_geom (m : Manager) (c : Call) : (stepCall m c).geom = m.geom := by
+  unfold stepCall setDesign
+  split
+  · rfl
+  · split
+    · rfl
+    · split <;> rfl
+
+theorem afterCalls_geom (m : Manager) (calls : List Call) : (afterCalls m calls).geom = m.geom := by
+  unfold afterCalls
+  induction calls generalizing m with
+  | nil => rfl
+  | cons c cs ih => simp only [List.foldl_cons]; rw [ih, stepCall_geom]
+
+theorem stepCall_design (m : Manager) (k : Nat) (hk : k < nMethods) (hg : m.geom = some k) (c : Call) :
+    (stepCall m c).design = if validCall c then some (c.1, c.2.1, k) else m.design := by
+  unfold stepCall setDesign validCall
+  by_cases h : c.2.1 = FlowType.other
+  · simp [h]
+  · simp [h, hg, hk]
+
+theorem afterCalls_snoc (m : Manager) (cs : List Call) (c : Call) :
+    afterCalls m (cs ++ [c]) = stepCall (afterCalls m cs) c := by
+  unfold afterCalls; rw [List.foldl_append]; rfl
+
+/-- Invariant of a call history: the stored design is that of the last call that named a flow type. -/
+theorem afterCalls_design (m : Manager) (k : Nat) (hk : k < nMethods) (hg : m.geom = some k) (calls : List Call) :
+    (afterCalls m calls).design =
+      match (calls.filter validCall).getLast? with
+      | some c => some (c.1, c.2.1, k)
+      | none => m.design := by
+  induction calls using List.reverseRecOn with
+  | nil => rfl
+  | append_singleton cs c ih =>
+    rw [afterCalls_snoc, stepCall_design _ k hk (by rw [afterCalls_geom]; exact hg), ih, List.filter_append]
+    by_cases hv : validCall c
+    · simp [hv, List.filter]
+    · simp [hv, List.filter]
+
+theorem lastValid_snoc (l : List Call) (c : Call) (hv : validCall c = true) :
+    ((l ++ [c]).filter validCall).getLast? = some c := by
+  simp [List.filter_append, List.filter, hv]
+
 end GHEVerif.Flow
